@@ -102,7 +102,15 @@
     branch of tryRemoveBackup); names that still have to be resolved through
     symlinks ([realPath] beyond the identity on resolved names, C16); runs
     with crash points or injected faults ([Inv] includes [quiet]); type
-    changes at tracked paths (D13: [kind_stable] in [good_run]). *)
+    changes at tracked paths (D13: [kind_stable] in [good_run]).
+
+    The law-level statements are parameterised by [hid]/[anc] (what the base
+    hides: paths at or below a hidden location, its proper ancestors; [nohid]
+    for a base that hides nothing) and the Rollback statements from an
+    arbitrary invariant state ask for [loc_ok hid anc B0] (see Props/C01.v);
+    the [*_documented] theorems at the end of the file are the closed
+    instances for the documented layering (location inside the base tree,
+    hidden by HiddenFS: Proofs/LawsHidden*.v). *)
 From stdpp Require Import gmap.
 From BFS Require Import Spec.CopySpecs.
 From BFS Require Import Backup.History.
@@ -112,8 +120,8 @@ From BFS Require Import Spec.ViewOsfs Proofs.LawsOsfs.
 
 (** ForceBackup keeps the invariant, for the new baseline *)
 Theorem C17_force_backup_rebaselines :
-  forall base backup Vb Vk tnb tnk accb acck rhb rhk whb whk B0,
-  force_backup_stmt base backup Vb Vk tnb tnk accb acck rhb rhk whb whk B0.
+  forall base backup Vb Vk tnb tnk accb acck rhb rhk whb whk hid anc B0,
+  force_backup_stmt base backup Vb Vk tnb tnk accb acck rhb rhk whb whk hid anc B0.
 Proof. exact force_backup_spec. Qed.
 Print Assumptions C17_force_backup_rebaselines.
 
@@ -121,10 +129,10 @@ Print Assumptions C17_force_backup_rebaselines.
 Theorem C17_rollback_after_force_backup :
   forall (base backup : fsapi) (Vb Vk : world -> store) (tnb tnk : str -> str)
          (accb acck : str -> str -> Prop) (rhb rhk whb whk : fhandle -> str -> nat -> Prop)
-         (B0 : store),
-  base_laws base Vb Vk tnb accb rhb whb -> base_laws2 base Vb Vk tnb accb rhb whb ->
+         (hid anc : str -> Prop) (B0 : store),
+  base_laws base Vb Vk tnb accb rhb whb hid anc -> base_laws2 base Vb Vk tnb accb rhb whb ->
   backup_laws backup Vb Vk tnk acck rhk whk ->
-  links_ok tnb tnk accb acck B0 -> all_small B0 -> swf B0 ->
+  links_ok tnb tnk accb acck B0 -> all_small B0 -> swf B0 -> loc_ok hid anc B0 ->
   forall (w : world) (p : str),
   Inv Vb Vk B0 w -> snolinkpar (Vb w) p -> p <> s_root ->
   entry_ok tnb tnk accb acck p (Vb w !! p) -> orig_not_dir_cond w p ->
@@ -148,10 +156,10 @@ Print Assumptions C17_rollback_after_force_backup.
 Theorem C17_failed_force_backup :
   forall (base backup : fsapi) (Vb Vk : world -> store) (tnb tnk : str -> str)
          (accb acck : str -> str -> Prop) (rhb rhk whb whk : fhandle -> str -> nat -> Prop)
-         (B0 : store),
-  base_laws base Vb Vk tnb accb rhb whb -> base_laws2 base Vb Vk tnb accb rhb whb ->
+         (hid anc : str -> Prop) (B0 : store),
+  base_laws base Vb Vk tnb accb rhb whb hid anc -> base_laws2 base Vb Vk tnb accb rhb whb ->
   backup_laws backup Vb Vk tnk acck rhk whk ->
-  links_ok tnb tnk accb acck B0 -> all_small B0 -> swf B0 ->
+  links_ok tnb tnk accb acck B0 -> all_small B0 -> swf B0 -> loc_ok hid anc B0 ->
   forall (w : world) (p : str),
   Inv Vb Vk B0 w -> snolinkpar (Vb w) p -> p <> s_root ->
   entry_ok tnb tnk accb acck p (Vb w !! p) -> orig_not_dir_cond w p ->
@@ -169,15 +177,15 @@ Print Assumptions C17_failed_force_backup.
 (** a whole transaction: initial state, covered operations, ForceBackup(p),
     covered operations, Rollback *)
 Theorem C17_whole_transaction :
-  forall base backup Vb Vk tnb tnk accb acck rhb rhk whb whk B0,
-  c17_initial_stmt base backup Vb Vk tnb tnk accb acck rhb rhk whb whk B0.
+  forall base backup Vb Vk tnb tnk accb acck rhb rhk whb whk hid anc B0,
+  c17_initial_stmt base backup Vb Vk tnb tnk accb acck rhb rhk whb whk hid anc B0.
 Proof. exact c17_initial_spec. Qed.
 Print Assumptions C17_whole_transaction.
 
 (** ForceBackup of an untracked path is tryBackup *)
 Theorem C17_untracked_is_try_backup :
-  forall base backup Vb Vk tnb tnk accb acck rhb rhk whb whk B0,
-  force_backup_untracked_stmt base backup Vb Vk tnb tnk accb acck rhb rhk whb whk B0.
+  forall base backup Vb Vk tnb tnk accb acck rhb rhk whb whk hid anc B0,
+  force_backup_untracked_stmt base backup Vb Vk tnb tnk accb acck rhb rhk whb whk hid anc B0.
 Proof. exact force_backup_untracked_spec. Qed.
 Print Assumptions C17_untracked_is_try_backup.
 
@@ -287,3 +295,28 @@ Proof.
   - split; [reflexivity | split; [reflexivity | split; reflexivity]].
   - split; [reflexivity | split; reflexivity].
 Qed.
+
+(** the property, closed, for the DOCUMENTED layering (location inside the base
+    tree, hidden by HiddenFS: Proofs/LawsHidden.v); [loc_ok]: the baseline shows
+    nothing at or below the location and its ancestors as directories - true of
+    the initial store ([loc_ok_documented]) *)
+From BFS Require Import Spec.ViewHidden Proofs.LawsHidden.
+
+Theorem C17_documented :
+  forall pa h, prefix_ok pa -> hidden_ok h ->
+  forall B0, links_ok clean clean (acc_h pa h) (acc_p (pk_h pa h)) B0 -> all_small B0 -> swf B0 ->
+  loc_ok (hid_h h) (anc_h h) B0 ->
+  forall w p, Inv (VpH pa h) (Vp (pk_h pa h)) B0 w -> snolinkpar (VpH pa h w) p -> p <> s_root ->
+  entry_ok clean clean (acc_h pa h) (acc_p (pk_h pa h)) p (VpH pa h w !! p) -> orig_not_dir_cond w p ->
+  parents_original (VpH pa h) B0 w p ->
+  forall r w1 ops w2,
+    b_force_backup (cfg_base (dcfg pa h)) (cfg_backup (dcfg pa h)) p w = (r, w1) ->
+    good_run (cfg_base (dcfg pa h)) (cfg_backup (dcfg pa h)) (VpH pa h) w1 ops w2 ->
+    exists w3, b_rollback (cfg_base (dcfg pa h)) (cfg_backup (dcfg pa h)) w2 = (MOk tt, w3) /\
+               sonode_eqv (VpH pa h w3 !! p) (VpH pa h w !! p) /\
+               (forall q, q <> p -> q <> s_root -> sonode_eqv (VpH pa h w3 !! q) (B0 !! q)) /\
+               (forall q, q <> s_root -> Vp (pk_h pa h) w3 !! q = None) /\ w_infos w3 = ∅ /\
+               (r <> MOk tt -> (forall fi, w_infos w !! p <> Some (Some fi)) ->
+                sonode_eqv (VpH pa h w3 !! p) (B0 !! p)).
+Proof. exact c17_documented. Qed.
+Print Assumptions C17_documented.
